@@ -171,6 +171,10 @@ def real_programs(progs, thorough, seed):
             out.append({"pool": pool, "fill": False, "prog": pr, "pidx": i})
             if pr["op"] == "drop" and pr["n"] <= (2 if thorough else 1) or (not thorough and pr["op"] == "drop" and pr["n"] == 2 and i % 3 == 0):
                 out.append({"pool": pool, "fill": True, "prog": pr, "pidx": i})
+            # the same program with every scripted object held through type-erased handles (`.erase()`: the handle's
+            # static type says nothing about the destructor that runs); raw pools have no handle Drop to vary
+            if pr["op"] == "drop" and not pool.startswith("Raw") and (thorough or i % 2 == 0):
+                out.append({"pool": pool, "fill": False, "erased": True, "prog": pr, "pidx": i})
     return out
 
 
@@ -246,7 +250,7 @@ def check(run):
         if norm(events, fill) != pred:
             drift += 1
             if len(drift_samples) < 3:
-                drift_samples.append({"pool": rp["pool"], "fill": rp["fill"], "prog": pr,
+                drift_samples.append({"pool": rp["pool"], "fill": rp["fill"], "erased": rp.get("erased", False), "prog": pr,
                                       "predicted": pred, "recorded": norm(events, fill)})
         rk = None
         if j in rrej:
@@ -254,7 +258,7 @@ def check(run):
             real_keys[rk] += 1
             run.violation("callbacks:" + rk,
                           "%s: %s -- judge rejects record %s (%s)" % (rp["pool"], describe(pr), json.dumps(rrej[j]["rec"]), rrej[j].get("why")),
-                          {"pool": rp["pool"], "fill": rp["fill"], "prog": pr, "events": events, "rejected": rrej[j],
+                          {"pool": rp["pool"], "fill": rp["fill"], "erased": rp.get("erased", False), "prog": pr, "events": events, "rejected": rrej[j],
                            "predicted_by_explorer": pkeys.get(pi)})
         if rk != pkeys.get(pi) and not rp["fill"]:
             verdict_mismatch += 1
@@ -296,7 +300,7 @@ def replay(path):
     rep = json.load(open(path))["replay"]
     wd = workdir(PID, "replay_run", clean=True)
     vlib.cargo_build(["h_poolcb"])
-    trace = run_real(wd, [{"pool": rep["pool"], "fill": rep["fill"], "prog": rep["prog"]}], "replay")
+    trace = run_real(wd, [{"pool": rep["pool"], "fill": rep["fill"], "erased": rep.get("erased", False), "prog": rep["prog"]}], "replay")
     ok, rejects, tr = validate_trace(D, "Trace_PoolCallbacks", trace)
     for e in read_ndjson(trace):
         print(json.dumps(e))
